@@ -380,7 +380,7 @@ Fixpoint run_outputs (cfg : config) (tag : bytes) (clk : Z) (outs : list out_cfg
 (* what happened to one record *)
 Inductive rec_result :=
 | RDropParse                                  (* malformed: rejected by the parser, counted as dropped input *)
-| RDropExtract                                (* DROP in the extractions: released (input counters: passed) *)
+| RDropExtract                                (* DROP in the extractions: released, counted as dropped input instead of passed *)
 | RDropTransform (pipe : nat)                 (* DROP in the pipeline's transforms: counted dropped there *)
 | RPassed (pipe : nat) (streams : list bytes) (chunks : list (option (Packer.echunk bytes))).
 
@@ -415,12 +415,19 @@ Definition worker_step (cfg : config) (pi : pinst) (idx : nat) (clk : Z) (p : pr
            pi_passed := pi_passed pi1; pi_dropped := pi_dropped pi1 + 1; pi_sers := pi_sers pi1; pi_packs := pi_packs pi1 |},
         RDropTransform idx).
 
+(* LogInputCounterSet.CountRecordPassToDrop: a record the parser has counted as passed is counted as dropped instead
+   (it follows CountRecordPass at once, so the subtraction never goes below zero) *)
+Definition pass_to_drop (c : Parser.counters) (rawlen : nat) : Parser.counters :=
+  {| Parser.passed_n := Parser.passed_n c - 1; Parser.passed_bytes := Parser.passed_bytes c - N.of_nat rawlen;
+     Parser.dropped_n := Parser.dropped_n c + 1; Parser.dropped_bytes := Parser.dropped_bytes c + N.of_nat rawlen;
+     Parser.overflow_n := Parser.overflow_n c; Parser.overflow_bytes := Parser.overflow_bytes c |}.
+
 Definition with_input (c : cstate) (cnt : Parser.counters) : cstate :=
   {| cs_input := cnt; cs_extract := cs_extract c; cs_ecnt := cs_ecnt c; cs_local := cs_local c |}.
 
 (* a record the parser has accepted (and counted): everything after syslogParser.Parse.
    [now] = the receiver's timestamp (sess.now), [clk] = the clock reading a new chunk id would get.
-   The input counters are not read here, only carried along. *)
+   The input counters are only carried along, except that a DROP in the extractions re-counts the record. *)
 Definition process_parsed (cfg : config) (g : gstate) (c : cstate) (now : Z * Z) (clk : Z) (r : Parser.record)
   : outcome (gstate * cstate * rec_result) :=
   fields <~ place (c_nfields cfg) (c_locs cfg) r ;;
@@ -428,7 +435,11 @@ Definition process_parsed (cfg : config) (g : gstate) (c : cstate) (now : Z * Z)
   (* compositeParser.Parse *)
   '(ex', ecnt', p1, pass) <~ run_xtfs O (c_local_off cfg) (cs_extract c) (cs_ecnt c) (r0, now) ;;
   let c1 := {| cs_input := cs_input c; cs_extract := ex'; cs_ecnt := ecnt'; cs_local := cs_local c |} in
-  if negb pass then Ok (g, c1, RDropExtract) else
+  if negb pass then
+    (* DROP in the extractions: CountRecordPassToDrop, Release *)
+    Ok (g, {| cs_input := pass_to_drop (cs_input c) (Parser.raw_length r); cs_extract := ex'; cs_ecnt := ecnt';
+              cs_local := cs_local c |}, RDropExtract)
+  else
   (* byKeySetOrchestratorSink.Accept *)
   okeys <~ extract_keys (c_okeys cfg) (Transforms.r_fields (fst p1)) ;;
   '(g1, c2, idx) <~ get_or_create cfg g c1 okeys ;;
